@@ -8,6 +8,14 @@ Relations
          contents (samples, variants, data, ancestry, returned MAF) are observed.
   load : cls.load() of a generated bgzipped+tabixed VCF (read + the three default
          checks) against the model's composition of the checks.
+  files: a history on ONE object that read()s real files written by the harness (VCF.gz with
+         GT or GT:POP, PGEN+PVAR+PSAM): read / checks (raise and discard modes) / read of the
+         same or another file again / checks ..., 1-8 calls; outcome and contents after every
+         call; every check's verdict must be about the data loaded at that moment.
+
+Sample and variant IDs repeat in the generated data (duplicate rsIDs, an ID column that is '.'
+everywhere = variant ID -1, duplicate sample IDs where the class / file format accepts them):
+offenders and survivors are identified by position, never by ID.
 """
 import os
 import re
@@ -21,26 +29,50 @@ from .core import Relation, err_kind
 
 PROP = "C13"
 CLAIMED = True
-COQ_MODULES = ["GenoTable", "C13_Model", "C13_Check", "C13_Proofs", "C13_Sound"]
+COQ_MODULES = ["GenoTable", "C13_Model", "C13_Check", "C13_Proofs", "C13_Sound", "C13_ProofsHist"]
 PROPERTY_MODULE = "C13_Property"
 ALLOWED_AXIOMS = []
 RULE = (
-    "qc: arrays 0-5 samples x 0-6 variants (2 or 3 planes), cells drawn from {0,1} plus injected offenders "
+    "qc: arrays 0-5 samples x 0-6 variants (2 or 3 planes; IDs unique / repeated / '.'), cells drawn from {0,1} plus injected offenders "
     "(255/254 in one or both alleles, allele indices 2..253, unphased heterozygotes with and without the reference "
     "allele), 1-4 checks in random order with random discard flags, thresholds None/0/0.5/attainable "
-    "frequencies/off-grid; all four classes. Non-trivial = at least one call met an offender (raised or discarded "
+    "frequencies/off-grid; all four classes (+ GenotypesTR for the checks it inherits). files: 1-2 files of 1-4 samples x "
+    "1-5 variants read by one object, histories of 1-8 calls mixing read (whole file / some samples / some variants), "
+    "the checks and re-reads. Non-trivial = at least one call met an offender (raised or discarded "
     "something) or stripped the phase plane. Distinct = distinct canonical JSON."
 )
 TRUSTED = [
     "numpy nonzero/delete/boolean casts are modelled as list operations (GenoTable.v) and exercised on every case",
     "IEEE double division/subtraction/comparison = Coq PrimFloat (bit exact) for the MAF values and threshold tests",
     "error messages are parsed by regular expressions to recover the named sample and variant",
+    "files relation: the harness' own writers (VCF text + bgzip via pysam, PGEN via pgenlib.PgenWriter) put into the "
+    "files what the tables say; what read() must deliver from them (calls, phase flags, POP labels decoded through the "
+    "object's popnum_ancestry) is compared with the tables on every case",
 ]
 ASSUMPTIONS = [
-    "sample IDs and variant IDs are distinct (the checker identifies survivors by ID)",
     "arrays are rectangular: len(samples) x len(variants) x (2|3)",
+    "files relation: read(variants=...) is only asked for IDs that occur once in the file (no truncation by the "
+    "preallocation of len(variants) records); files hold at least one sample and one variant",
 ]
 CLASSES = ["Genotypes", "GenotypesVCF", "GenotypesPLINK", "GenotypesAncestry"]
+# GenotypesTR inherits check_missing / check_phase / check_sorted unchanged (its check_biallelic and
+# check_maf are NotImplementedError stubs): exercised in qc with those three checks
+TR_OPS = ("missing", "phase", "sorted")
+POPS = ("A", "B", "C")
+
+
+def vname(k):
+    """variant ID of the interned number k; -1 = no ID ('.')"""
+    return "." if k < 0 else f"v{k}"
+
+
+def vparse(x):
+    x = str(x)
+    if x in (".", "None"):  # cyvcf2 reports the ID '.' as None
+        return -1
+    if not re.fullmatch(r"v\d+", x):
+        raise AssertionError(f"unexpected variant ID {x!r}")
+    return int(x[1:])
 
 
 # ---------------------------------------------------------------------------
@@ -52,7 +84,7 @@ def cell_term(c):
 
 
 def tab_term(t):
-    vs = L.lst(t["variants"], lambda v: f"gv {v[0]} {v[1]} {v[2]}")
+    vs = L.lst(t["variants"], lambda v: f"gv {L.z(v[0])} {L.z(v[1])} {L.z(v[2])}")
     rows = L.lst(t["rows"], lambda r: L.lst(r, cell_term))
     anc = "None" if t.get("anc") is None else "(Some " + L.lst(
         t["anc"], lambda r: L.lst(r, lambda x: f"({x[0]},{x[1]})")) + ")"
@@ -119,7 +151,7 @@ def build_object(inp):
     from haptools.transform import GenotypesAncestry
 
     cls = {"Genotypes": hd.Genotypes, "GenotypesVCF": hd.GenotypesVCF, "GenotypesPLINK": hd.GenotypesPLINK,
-           "GenotypesAncestry": GenotypesAncestry}[inp["cls"]]
+           "GenotypesAncestry": GenotypesAncestry, "GenotypesTR": hd.GenotypesTR}[inp["cls"]]
     log = logging.getLogger("hv_c13")
     log.setLevel(logging.CRITICAL + 1)
     g = cls(fname=None, log=log)
@@ -127,9 +159,9 @@ def build_object(inp):
     n, p, k = len(t["samples"]), len(t["variants"]), t["planes"]
     g.samples = tuple(f"s{i}" for i in t["samples"])
     if "alleles" in g.variants.dtype.names:
-        recs = [(f"v{v[0]}", str(v[1]), v[2], ("A", "T")) for v in t["variants"]]
+        recs = [(vname(v[0]), str(v[1]), v[2], ("A", "T")) for v in t["variants"]]
     else:
-        recs = [(f"v{v[0]}", str(v[1]), v[2]) for v in t["variants"]]
+        recs = [(vname(v[0]), str(v[1]), v[2]) for v in t["variants"]]
     g.variants = np.array(recs, dtype=g.variants.dtype)
     arr = np.zeros((n, p, k), dtype=np.uint8)
     for i, row in enumerate(t["rows"]):
@@ -145,7 +177,9 @@ def build_object(inp):
     return g
 
 
-def observe_state(g, is_anc):
+def observe_state(g, is_anc, decode=False):
+    """decode: the ancestry codes are translated back to the populations' positions in POPS through the
+    object's own popnum_ancestry (objects that read a file number the populations in order of appearance)"""
     d = np.asarray(g.data)
     if d.ndim != 3:
         raise AssertionError("data is not 3-dimensional")
@@ -154,21 +188,26 @@ def observe_state(g, is_anc):
     rows = [[[int(c[0]), int(c[1]), int(c[2]) if k >= 3 else 0] for c in r] for r in di]
     st = {
         "samples": [int(str(s)[1:]) for s in g.samples],
-        "variants": [[int(str(v["id"])[1:]), int(str(v["chrom"])), int(v["pos"])] for v in g.variants],
+        "variants": [[vparse(v["id"]), int(str(v["chrom"])), int(v["pos"])] for v in g.variants],
         "rows": rows, "planes": k, "anc": None,
     }
     if len(st["samples"]) != d.shape[0] or len(st["variants"]) != d.shape[1]:
         st["shape_mismatch"] = [int(x) for x in d.shape]
     if is_anc:
         a = np.asarray(g.ancestry).astype(np.int64)
-        st["anc"] = [[[int(c[0]), int(c[1])] for c in r] for r in a]
+        if decode:
+            names = dict(g.popnum_ancestry)
+            code = lambda x: POPS.index(names[int(x)]) if names.get(int(x)) in POPS else -1 - int(x)
+            st["anc"] = [[[code(c[0]), code(c[1])] for c in r] for r in a]
+        else:
+            st["anc"] = [[[int(c[0]), int(c[1])] for c in r] for r in a]
         if a.shape[:2] != d.shape[:2]:
             st["shape_mismatch"] = [int(x) for x in d.shape] + [int(x) for x in a.shape]
     return st
 
 
-RX_CELL = re.compile(r"^(?:Genotype|Variant) with ID v(\d+) at POS (\S+):(\d+) is (missing|multiallelic|unphased) for sample s(\d+)$")
-RX_MAF = re.compile(r"^Variant with ID v(\d+) at POS (\S+):(\d+) has MAF (\S+) < (\S+)$")
+RX_CELL = re.compile(r"^(?:Genotype|Variant) with ID (v\d+|\.|None) at POS (\S+):(\d+) is (missing|multiallelic|unphased) for sample s(\d+)$")
+RX_MAF = re.compile(r"^Variant with ID (v\d+|\.|None) at POS (\S+):(\d+) has MAF (\S+) < (\S+)$")
 RX_SORT = re.compile(r"^The variants in chromosome '(\S+)' are not sorted by position$")
 
 
@@ -190,6 +229,38 @@ def fl(x):
     return None if (x != x or x in (float("inf"), float("-inf"))) else x.hex()
 
 
+WANT = {"missing": "missing", "biallelic": "multiallelic", "phase": "unphased"}
+
+
+def run_check_op(g, op, is_anc, decode=False):
+    """one QC call on the object g: what it did and the object's contents afterwards"""
+    try:
+        with np.errstate(all="ignore"):
+            ret = apply_op(g, op)
+        o = {"state": observe_state(g, is_anc, decode)}
+        if op["op"] == "maf":
+            o["maf"] = [fl(x) for x in np.asarray(ret).tolist()]
+    except ValueError as e:
+        msg = str(e)
+        m = RX_CELL.match(msg)
+        if m and WANT.get(op["op"]) == m.group(4):
+            o = {"raise": [int(m.group(5)), vparse(m.group(1))], "state": observe_state(g, is_anc, decode)}
+        elif RX_MAF.match(msg) and op["op"] == "maf":
+            o = {"raise": [None, vparse(RX_MAF.match(msg).group(1))], "state": observe_state(g, is_anc, decode)}
+        elif RX_SORT.match(msg) and op["op"] == "sorted":
+            o = {"raise": [None, None], "state": observe_state(g, is_anc, decode)}
+        else:
+            o = {"other": 1, "msg": msg[:200]}
+    except Exception as e:  # noqa
+        o = {"other": err_kind(e), "msg": f"{type(e).__name__}: {e}"[:200]}
+    if "state" in o and "shape_mismatch" in o["state"]:
+        # the arrays no longer line up (e.g. ancestry not shrunk in step): the property fails here;
+        # encoded as an outcome no clause accepts
+        o = {"other": 98, "msg": f"arrays out of step after {op['op']}: {o['state']['shape_mismatch']}",
+             "partial": {k: o["state"][k] for k in ("samples", "variants", "planes")}}
+    return o
+
+
 def run_sequence(inp):
     import warnings
 
@@ -197,32 +268,8 @@ def run_sequence(inp):
     g = build_object(inp)
     is_anc = inp["cls"] == "GenotypesAncestry"
     steps = []
-    want = {"missing": "missing", "biallelic": "multiallelic", "phase": "unphased"}
     for op in inp["ops"]:
-        try:
-            with np.errstate(all="ignore"):
-                ret = apply_op(g, op)
-            o = {"state": observe_state(g, is_anc)}
-            if op["op"] == "maf":
-                o["maf"] = [fl(x) for x in np.asarray(ret).tolist()]
-        except ValueError as e:
-            msg = str(e)
-            m = RX_CELL.match(msg)
-            if m and want.get(op["op"]) == m.group(4):
-                o = {"raise": [int(m.group(5)), int(m.group(1))], "state": observe_state(g, is_anc)}
-            elif RX_MAF.match(msg) and op["op"] == "maf":
-                o = {"raise": [None, int(RX_MAF.match(msg).group(1))], "state": observe_state(g, is_anc)}
-            elif RX_SORT.match(msg) and op["op"] == "sorted":
-                o = {"raise": [None, None], "state": observe_state(g, is_anc)}
-            else:
-                o = {"other": 1, "msg": msg[:200]}
-        except Exception as e:  # noqa
-            o = {"other": err_kind(e), "msg": f"{type(e).__name__}: {e}"[:200]}
-        if "state" in o and "shape_mismatch" in o["state"]:
-            # the arrays no longer line up (e.g. ancestry not shrunk in step): the property fails here;
-            # encoded as an outcome no clause accepts
-            o = {"other": 98, "msg": f"arrays out of step after {op['op']}: {o['state']['shape_mismatch']}",
-                 "partial": {k: o["state"][k] for k in ("samples", "variants", "planes")}}
+        o = run_check_op(g, op, is_anc)
         steps.append(o)
         if "other" in o:
             break
@@ -295,6 +342,17 @@ def gen_table(rng, cls, flavour):
     planes = 3 if rng.random() < 0.75 else 2
     sids = rng.permutation(9)[:n].tolist()
     vids = rng.permutation(9)[:p].tolist()
+    # repeated IDs: the same rsID on several records, an ID column that is '.' (-1) everywhere or in
+    # places, the same sample ID twice (a tuple of names set directly / a .psam accept that)
+    ids = flavour.get("ids", "unique")
+    if ids == "dots":
+        vids = [-1] * p
+    elif ids == "dups" and p:
+        pool = [-1] + rng.permutation(9)[:max(1, (p + 1) // 2)].tolist()
+        vids = [int(pool[int(rng.integers(0, len(pool)))]) for _ in range(p)]
+    if flavour.get("sdup") and n:
+        pool = rng.permutation(9)[:max(1, (n + 1) // 2)].tolist()
+        sids = [int(pool[int(rng.integers(0, len(pool)))]) for _ in range(n)]
     nch = int(rng.integers(1, 3))
     variants = []
     pos = {1: 10, 2: 10}
@@ -353,6 +411,39 @@ def gen_table(rng, cls, flavour):
 ALL_KINDS = ["miss2", "miss1", "m254", "multi", "multi2", "unph01", "unph12", "unphhom"]
 
 
+def gen_ids(rng):
+    """ID pattern of a generated table"""
+    r = rng.random()
+    return {"ids": "unique" if r < 0.4 else ("dots" if r < 0.55 else "dups"), "sdup": bool(rng.random() < 0.35)}
+
+
+def target_dup(rng, t):
+    """Boundary of "discard by position": two variants (two samples) carry the same ID and exactly one of them
+    offends - one column gets a multiallelic call or becomes monomorphic (rare at every threshold > 0) while its
+    twin is common, one row gets a missing call.  In place."""
+    n, p = len(t["samples"]), len(t["variants"])
+    ph = 1 if t["planes"] == 3 else 0
+    if p >= 2 and n:
+        j1, j2 = [int(x) for x in rng.permutation(p)[:2]]
+        t["variants"][j2][0] = t["variants"][j1][0]
+        what = int(rng.integers(0, 3))
+        for i in range(n):
+            t["rows"][i][j2] = [i % 2, 1 - i % 2, ph] if n > 1 else [0, 1, ph]
+        if what == 0:
+            for i in range(n):
+                t["rows"][i][j1] = [0, 0, ph]
+        elif what == 1:
+            for i in range(n):
+                t["rows"][i][j1] = [1, 1, ph]
+        else:
+            t["rows"][int(rng.integers(0, n))][j1] = [2, 1, ph]
+    if n >= 2 and p:
+        i1, i2 = [int(x) for x in rng.permutation(n)[:2]]
+        t["samples"][i2] = t["samples"][i1]
+        if rng.random() < 0.7:
+            t["rows"][i1][int(rng.integers(0, p))] = [255, 255, 0]
+
+
 def gen_ops(rng, n, style):
     def one(kind):
         if kind == "maf":
@@ -371,6 +462,30 @@ def gen_ops(rng, n, style):
     else:
         seq = [str(rng.choice(kinds)) for _ in range(k)]
     return [one(s) for s in seq]
+
+
+def id_classes(t):
+    vids = [v[0] for v in t["variants"]]
+    out = []
+    if len(set(vids)) < len(vids):
+        out.append("variant-ids=repeated")
+    if -1 in vids:
+        out.append("variant-ids=some-missing")
+    if len(set(t["samples"])) < len(t["samples"]):
+        out.append("sample-ids=repeated")
+    return out
+
+
+def discard_hits_twin(before, after):
+    """a discarding call removed some but not all of the items that carry one ID"""
+    out = []
+    for key, ids_b, ids_a in (("variant", [v[0] for v in before["variants"]], [v[0] for v in after["variants"]]),
+                              ("sample", before["samples"], after["samples"])):
+        for x in set(ids_b):
+            if ids_b.count(x) > 1 and 0 < ids_a.count(x) < ids_b.count(x):
+                out.append(f"discard-splits-equal-{key}-ids")
+                break
+    return out
 
 
 class QC(Relation):
@@ -399,7 +514,7 @@ class QC(Relation):
     def generate(self, rng, n, tier):
         out = []
         for i in range(n):
-            cls = CLASSES[int(rng.integers(0, 4))]
+            cls = CLASSES[int(rng.integers(0, 4))] if rng.random() < 0.93 else "GenotypesTR"
             r = rng.random()
             if r < 0.12:
                 fl_ = {"density": "clean", "kinds": ALL_KINDS}
@@ -410,9 +525,25 @@ class QC(Relation):
             else:
                 fl_ = {"density": "many", "kinds": ALL_KINDS if rng.random() < 0.5 else [str(rng.choice(ALL_KINDS))]}
             fl_["unsorted"] = bool(rng.random() < 0.3)
+            fl_.update(gen_ids(rng))
             t = gen_table(rng, cls, fl_)
+            kind = fl_["density"]
+            if rng.random() < 0.2:
+                target_dup(rng, t)
+                kind = "dup-target"
             style = ["load", "perm", "free"][int(rng.choice([0, 1, 1, 2, 2]))]
-            out.append({"cls": cls, "table": t, "ops": gen_ops(rng, len(t["samples"]), style), "kind": fl_["density"]})
+            ops = gen_ops(rng, len(t["samples"]), style)
+            if kind == "dup-target" and rng.random() < 0.7:
+                # make sure a discarding call meets the twins
+                k = ["missing", "biallelic", "maf"][int(rng.integers(0, 3))]
+                op = {"op": k, "discard": True}
+                if k == "maf":
+                    op.update(thr=[0.5, 0.25, 0.1, 1e-12][int(rng.integers(0, 4))], warn=bool(rng.random() < 0.2))
+                ops.insert(int(rng.integers(0, len(ops) + 1)), op)
+                ops = ops[:4]
+            if cls == "GenotypesTR":
+                ops = [o for o in ops if o["op"] in TR_OPS] or [{"op": "phase"}]
+            out.append({"cls": cls, "table": t, "ops": ops, "kind": kind})
         return out
 
     def exhaustive(self, tier):
@@ -430,10 +561,12 @@ class QC(Relation):
                 for shape in ("row", "col"):
                     rows = [[list(a), list(b)]] if shape == "row" else [[list(a)], [list(b)]]
                     n, p = len(rows), len(rows[0])
-                    t = {"samples": list(range(n)), "variants": [[j, 1, 10 + j] for j in range(p)], "rows": rows,
-                         "planes": 3, "anc": [[[0, 1]] * p for _ in range(n)] if cls == "GenotypesAncestry" else None}
-                    for op in ops:
-                        out.append({"cls": cls, "table": t, "ops": [op], "kind": "exhaustive"})
+                    for same in (False, True):   # the two variants / samples carry the same ID
+                        t = {"samples": [0 if same else i for i in range(n)],
+                             "variants": [[0 if same else j, 1, 10 + j] for j in range(p)], "rows": rows,
+                             "planes": 3, "anc": [[[i, j] for j in range(p)] for i in range(n)] if cls == "GenotypesAncestry" else None}
+                        for op in ops:
+                            out.append({"cls": cls, "table": t, "ops": [op], "kind": "exhaustive"})
         return out
 
     def run_impl(self, inp):
@@ -465,6 +598,7 @@ class QC(Relation):
 
     def classes(self, inp, obs):
         out = [inp["cls"], f"density={inp['kind']}", f"n={len(inp['table']['samples'])}", f"p={len(inp['table']['variants'])}"]
+        out += id_classes(inp["table"])
         if isinstance(obs, dict) and "steps" in obs:
             cur = inp["table"]
             for op, o in zip(inp["ops"], obs["steps"]):
@@ -479,6 +613,7 @@ class QC(Relation):
                         if cur["samples"] and cur["variants"]:
                             out.append(f"{tag}:all-discarded")
                     out.append(f"{tag}:{'changed' if st != cur else 'unchanged'}")
+                    out += discard_hits_twin(cur, st)
                     cur = st
         return sorted(set(out))
 
@@ -516,6 +651,21 @@ class QC(Relation):
             if t["planes"] == 2:
                 rows[i][j][2] = 0
             yield dict(inp, table=dict(t, rows=rows))
+        # the same ID on two variants / two samples, no ID at all
+        for _ in range(6):
+            vs = [list(v) for v in t["variants"]]
+            ss = list(t["samples"])
+            r = int(rng.integers(0, 3))
+            if r == 0 and p >= 2:
+                j1, j2 = [int(x) for x in rng.permutation(p)[:2]]
+                vs[j2][0] = vs[j1][0]
+            elif r == 1:
+                for v in vs:
+                    v[0] = -1
+            elif n >= 2:
+                i1, i2 = [int(x) for x in rng.permutation(n)[:2]]
+                ss[i2] = ss[i1]
+            yield dict(inp, table=dict(t, variants=vs, samples=ss))
 
     def signature(self, inp, obs):
         return f"qc {'ancestry' if inp['cls'] == 'GenotypesAncestry' else 'plain'}: " + describe(inp, obs)
@@ -550,7 +700,7 @@ def write_vcf(path, samples, variants, rows, phased_plane=True):
                 sa = "." if a >= 254 else str(a)
                 sb = "." if b >= 254 else str(b)
                 gts.append(sa + ("|" if ph else "/") + sb)
-            f.write(f"{v[1]}\t{v[2]}\tv{v[0]}\tA\t{alts}\t.\t.\t.\tGT\t" + "\t".join(gts) + "\n")
+            f.write(f"{v[1]}\t{v[2]}\t{vname(v[0])}\tA\t{alts}\t.\t.\t.\tGT\t" + "\t".join(gts) + "\n")
     pysam.tabix_compress(plain, path, force=True)
     pysam.tabix_index(path, preset="vcf", force=True)
     os.remove(plain)
@@ -576,7 +726,7 @@ def write_anc_vcf(path, t, pops=("A", "B", "C")):
                 sa = "." if a >= 254 else str(a)
                 sb = "." if b >= 254 else str(b)
                 cells.append(f"{sa}{'|' if ph else '/'}{sb}:{pops[x]},{pops[y]}")
-            f.write(f"{v[1]}\t{v[2]}\tv{v[0]}\tA\tT,G,C\t.\t.\t.\tGT:POP\t" + "\t".join(cells) + "\n")
+            f.write(f"{v[1]}\t{v[2]}\t{vname(v[0])}\tA\tT,G,C\t.\t.\t.\tGT:POP\t" + "\t".join(cells) + "\n")
     pysam.tabix_compress(plain, path, force=True)
     pysam.tabix_index(path, preset="vcf", force=True)
     os.remove(plain)
@@ -607,6 +757,7 @@ class Load(Relation):
                 kinds = [k for k in kinds if k != "m254"]
                 fl_ = {"density": "few" if rng.random() < 0.8 else "many", "kinds": kinds}
             fl_["unsorted"] = False
+            fl_.update(gen_ids(rng), sdup=False)   # a VCF header cannot name a sample twice
             while True:
                 t = gen_table(rng, "GenotypesVCF", fl_)
                 if t["samples"] and t["variants"]:
@@ -660,7 +811,7 @@ class Load(Relation):
             except ValueError as e:
                 m = RX_CELL.match(str(e))
                 if m:
-                    return {"raw": raw, "out": {"raise": [int(m.group(5)), int(m.group(1))], "what": m.group(4)}}
+                    return {"raw": raw, "out": {"raise": [int(m.group(5)), vparse(m.group(1))], "what": m.group(4)}}
                 return {"raw": raw, "out": {"other": 1, "msg": str(e)[:200]}}
             except Exception as e:  # noqa
                 return {"raw": raw, "out": {"other": err_kind(e), "msg": str(e)[:200]}}
@@ -688,7 +839,7 @@ class Load(Relation):
         return isinstance(obs, dict) and "out" in obs and ("raise" in obs["out"] or "state" in obs["out"])
 
     def classes(self, inp, obs):
-        out = [inp["cls"], f"density={inp['kind']}"]
+        out = [inp["cls"], f"density={inp['kind']}"] + id_classes(inp["table"])
         if isinstance(obs, dict) and "out" in obs:
             o = obs["out"]
             out.append("raised:" + o.get("what", "?") if "raise" in o else ("loaded" if "state" in o else f"other{o.get('other')}"))
@@ -740,7 +891,475 @@ class Load(Relation):
         return "load harness-level failure"
 
 
-RELATIONS = [QC(), Load()]
+# ---------------------------------------------------------------------------
+# histories on one object that reads real files
+
+
+def write_pgen(path, t):
+    """PGEN + PVAR + PSAM written with pgenlib itself (not through haptools)"""
+    import pgenlib
+
+    base = path[:-5]
+    with open(base + ".psam", "w") as f:
+        f.write("#IID\n")
+        for x in t["samples"]:
+            f.write(f"s{x}\n")
+    nalt = 1
+    for r in t["rows"]:
+        for c in r:
+            for x in c[:2]:
+                if x < 254:
+                    nalt = max(nalt, x)
+    alts = ",".join(["T", "G", "C", "TT", "GG", "CC", "TTT"][:nalt])
+    with open(base + ".pvar", "w") as f:
+        f.write("#CHROM\tPOS\tID\tREF\tALT\n")
+        for v in t["variants"]:
+            f.write(f"{v[1]}\t{v[2]}\t{vname(v[0])}\tA\t{alts}\n")
+    n, p = len(t["samples"]), len(t["variants"])
+    with pgenlib.PgenWriter(filename=bytes(path, "utf8"), sample_ct=n, variant_ct=p, allele_ct_limit=nalt + 1,
+                            nonref_flags=False, hardcall_phase_present=True) as w:
+        for j in range(p):
+            al = np.empty((1, 2 * n), dtype=np.int32)
+            ph = np.zeros((1, n), dtype=np.uint8)
+            for i in range(n):
+                a, b, q = t["rows"][i][j]
+                al[0, 2 * i] = -9 if a >= 254 else a
+                al[0, 2 * i + 1] = -9 if b >= 254 else b
+                ph[0, i] = 1 if (q and a != b and a < 254 and b < 254) else 0
+            w.append_partially_phased_batch(al, ph, allele_cts=np.array([nalt + 1], dtype=np.uint32))
+
+
+def write_vcf_plain(path, t, anc):
+    """bgzipped VCF (FORMAT GT or GT:POP), not indexed: read() without a region needs no index"""
+    import pysam
+
+    plain = path[:-3]
+    with open(plain, "w") as f:
+        f.write("##fileformat=VCFv4.2\n")
+        for ch in sorted({v[1] for v in t["variants"]}):
+            f.write(f"##contig=<ID={ch}>\n")
+        f.write('##FORMAT=<ID=GT,Number=1,Type=String,Description="Genotype">\n')
+        if anc:
+            f.write('##FORMAT=<ID=POP,Number=2,Type=String,Description="pops">\n')
+        f.write("#CHROM\tPOS\tID\tREF\tALT\tQUAL\tFILTER\tINFO\tFORMAT\t" + "\t".join(f"s{x}" for x in t["samples"]) + "\n")
+        for j, v in enumerate(t["variants"]):
+            cells = []
+            for i in range(len(t["samples"])):
+                a, b, ph = t["rows"][i][j]
+                sa = "." if a >= 254 else str(a)
+                sb = "." if b >= 254 else str(b)
+                c = sa + ("|" if ph else "/") + sb
+                if anc:
+                    x, y = t["anc"][i][j]
+                    c += f":{POPS[x]},{POPS[y]}"
+                cells.append(c)
+            f.write(f"{v[1]}\t{v[2]}\t{vname(v[0])}\tA\tT,G,C\t.\t.\t.\t{'GT:POP' if anc else 'GT'}\t" + "\t".join(cells) + "\n")
+    pysam.tabix_compress(plain, path, force=True)
+    os.remove(plain)
+
+
+def norm_file_table(cls, t):
+    """The table as the file format can hold it and as read() delivers it (in place).
+    VCF: alleles 0..3 or '.', the phase flag is the separator.  PGEN: a call is missing as a whole, the phase
+    flag exists for heterozygotes only (homozygotes read back with the flag set, missing calls without),
+    an unphased heterozygote is stored unordered (reads back smaller allele first)."""
+    t["planes"] = 3
+    for r in t["rows"]:
+        for c in r:
+            for q in (0, 1):
+                if c[q] == 254:
+                    c[q] = 255
+                elif 3 < c[q] < 254:
+                    c[q] = 3
+            c[2] = 1 if c[2] else 0
+            if cls == "GenotypesPLINK":
+                if c[0] >= 254 or c[1] >= 254:
+                    c[0], c[1], c[2] = 255, 255, 0
+                elif c[0] == c[1]:
+                    c[2] = 1
+                elif not c[2]:
+                    c[0], c[1] = min(c[0], c[1]), max(c[0], c[1])
+    if cls != "GenotypesPLINK":
+        # a VCF header cannot name a sample twice
+        seen = set()
+        for i, x in enumerate(t["samples"]):
+            while x in seen:
+                x = (x + 1) % 12
+            seen.add(x)
+            t["samples"][i] = x
+    if cls == "GenotypesAncestry" and t.get("anc") is None:
+        t["anc"] = [[[0, 0] for _ in t["variants"]] for _ in t["samples"]]
+    return t
+
+
+def py_read_sel(f, ss, vs):
+    """python twin of C13_Model.read_sel (for class labels and failure descriptions only)"""
+    km = [ss is None or x in ss for x in f["samples"]]
+    kv = [vs is None or v[0] in vs for v in f["variants"]]
+    sel = lambda r: [c for c, k in zip(r, kv) if k]
+    return {"samples": [x for x, k in zip(f["samples"], km) if k], "variants": sel(f["variants"]),
+            "rows": [sel(r) for r, k in zip(f["rows"], km) if k], "planes": f["planes"],
+            "anc": None if f.get("anc") is None else [sel(r) for r, k in zip(f["anc"], km) if k]}
+
+
+def step_term(st):
+    if "read" in st:
+        ss = "None" if st.get("samples") is None else f"(Some {L.zl(st['samples'])})"
+        vs = "None" if st.get("variants") is None else f"(Some {L.zl(st['variants'])})"
+        return f"FRead {st['read']}%nat {ss} {vs}"
+    return f"FCheck ({op_term(st)})"
+
+
+def gen_file_table(rng, cls, want=None):
+    """want: None | 'clean' | 'unphased-het' | 'missing' | 'multi' | 'rare'"""
+    kinds = {"clean": None, "unphased-het": ["unph01", "unph12"], "missing": ["miss2", "miss1"], "multi": ["multi", "multi2"],
+             "rare": None, None: [k for k in ALL_KINDS if k != "m254"]}[want]
+    if kinds is None:
+        fl_ = {"density": "clean", "kinds": ALL_KINDS}
+    else:
+        fl_ = {"density": "few" if (want or rng.random() < 0.8) else "many", "kinds": kinds}
+    fl_["unsorted"] = bool(rng.random() < 0.15)
+    fl_.update(gen_ids(rng))
+    while True:
+        t = gen_table(rng, cls, fl_)
+        if 1 <= len(t["samples"]) <= 4 and 1 <= len(t["variants"]) <= 5:
+            break
+    t["planes"] = 3
+    if want in ("clean", "rare", "missing", "multi"):
+        # nothing for check_phase to complain about: every heterozygote phased
+        for r in t["rows"]:
+            for c in r:
+                if c[0] != c[1]:
+                    c[2] = 1
+    if want == "rare":
+        j = int(rng.integers(0, len(t["variants"])))
+        for r in t["rows"]:
+            r[j] = [0, 0, 1]
+    if want is None and rng.random() < 0.25:
+        target_dup(rng, t)
+    return norm_file_table(cls, t)
+
+
+def gen_read(rng, files, k=None):
+    k = int(rng.integers(0, len(files))) if k is None else k
+    f = files[k]
+    st = {"read": k, "samples": None, "variants": None}
+    r = rng.random()
+    vids = [v[0] for v in f["variants"]]
+    once = [x for x in set(vids) if vids.count(x) == 1 and x >= 0]   # a record without ID cannot be asked for
+    if r < 0.25 and once:
+        # some of the variants, by ID (only IDs that occur once; now and then one that is not in the file)
+        m = int(rng.integers(1, len(once) + 1))
+        st["variants"] = sorted(int(x) for x in rng.permutation(once)[:m]) + ([99] if rng.random() < 0.2 else [])
+    elif r < 0.4:
+        sids = sorted(set(f["samples"]))
+        m = int(rng.integers(1, len(sids) + 1))
+        st["samples"] = sorted(int(x) for x in rng.permutation(sids)[:m])
+    return st
+
+
+def gen_check(rng, n, kind=None, discard=None):
+    kind = kind or ["missing", "biallelic", "phase", "phase", "maf", "maf", "sorted"][int(rng.integers(0, 7))]
+    if kind == "maf":
+        g = _grid(rng, n)
+        op = {"op": "maf", "thr": g[int(rng.integers(0, len(g)))], "discard": bool(rng.random() < 0.5), "warn": bool(rng.random() < 0.25)}
+    elif kind in ("missing", "biallelic"):
+        op = {"op": kind, "discard": bool(rng.random() < 0.5)}
+    else:
+        op = {"op": kind}
+    if discard is not None and "discard" in op:
+        op["discard"] = discard
+    return op
+
+
+class Files(Relation):
+    name = "files"
+    coq_module = "C13_Check"
+    coq_check = "check_files"
+    coq_case_type = "fcase"
+    coq_model = "model_files"
+    coq_imports = ["GenoTable", "C13_Model"]
+    budget = {"quick": 260, "thorough": 5000}
+    max_cases_per_shard = 60
+    max_chars_per_shard = 70_000
+    anchors = [("haptools/data/genotypes.py", "Genotypes.read"), ("haptools/data/genotypes.py", "Genotypes.check_phase"),
+               ("haptools/data/genotypes.py", "Genotypes.check_missing"), ("haptools/data/genotypes.py", "Genotypes.check_biallelic"),
+               ("haptools/data/genotypes.py", "Genotypes.check_maf")]
+
+    def preamble(self):
+        return "From Coq Require Import QArith PrimFloat.\nOpen Scope Z_scope."
+
+    # ---- histories ------------------------------------------------------------
+    def boundary(self, rng, cls):
+        """read, check_phase (passes and strips), read again - a file holding an unphased heterozygote -,
+        check_phase: the second verdict is about the second file"""
+        f0 = gen_file_table(rng, cls, "clean")
+        f1 = gen_file_table(rng, cls, "unphased-het")
+        return [f0, f1], [{"read": 0, "samples": None, "variants": None}, {"op": "phase"},
+                          {"read": 1, "samples": None, "variants": None}, {"op": "phase"}]
+
+    def history(self, rng, cls, style):
+        if style == "boundary":
+            return self.boundary(rng, cls)
+        if style == "reread":
+            # a discarding (or stripping) check, the same file read again, the same check again: the offenders are back
+            want = ["missing", "multi", "rare", "unphased-het", None][int(rng.integers(0, 5))]
+            f0 = gen_file_table(rng, cls, want)
+            kind = {"missing": "missing", "multi": "biallelic", "rare": "maf", "unphased-het": "phase"}.get(want)
+            n = len(f0["samples"])
+            c1 = gen_check(rng, n, kind, discard=True)
+            if c1["op"] == "maf":
+                c1.update(thr=[0.5, 0.25, 1e-12][int(rng.integers(0, 3))], warn=False)
+            c2 = dict(c1, discard=bool(rng.random() < 0.5)) if "discard" in c1 else dict(c1)
+            steps = [gen_read(rng, [f0], 0), c1, gen_read(rng, [f0], 0), c2]
+            if rng.random() < 0.5:
+                steps.insert(1, {"op": "phase"})
+                steps.append({"op": "phase"})
+            return [f0], steps
+        if style == "pieces":
+            # one file processed piece by piece with one object
+            while True:
+                f0 = gen_file_table(rng, cls, None)
+                vids = [v[0] for v in f0["variants"]]
+                once = [x for x in set(vids) if vids.count(x) == 1 and x >= 0]
+                if len(once) >= 2:
+                    break
+            once = [int(x) for x in rng.permutation(once)]
+            cut = int(rng.integers(1, len(once)))
+            steps = []
+            for piece in (once[:cut], once[cut:]):
+                steps.append({"read": 0, "samples": None, "variants": sorted(piece)})
+                for _ in range(int(rng.integers(1, 4))):
+                    steps.append(gen_check(rng, len(f0["samples"])))
+            return [f0], steps[:8]
+        if style == "loaders":
+            files = [gen_file_table(rng, cls, None) for _ in range(2)]
+            steps = []
+            for k in (0, 1):
+                steps += [{"read": k, "samples": None, "variants": None}, {"op": "missing", "discard": bool(rng.random() < 0.5)},
+                          {"op": "biallelic", "discard": bool(rng.random() < 0.5)}, {"op": "phase"}]
+            return files, steps
+        # free: anything, starting with a read
+        files = [gen_file_table(rng, cls, [None, None, "clean", "unphased-het"][int(rng.integers(0, 4))])
+                 for _ in range(int(rng.integers(1, 3)))]
+        steps = [gen_read(rng, files)]
+        for _ in range(int(rng.integers(0, 8))):
+            if rng.random() < 0.3:
+                steps.append(gen_read(rng, files))
+            else:
+                steps.append(gen_check(rng, max(len(f["samples"]) for f in files)))
+        return files, steps
+
+    def generate(self, rng, n, tier):
+        out = []
+        styles = ["boundary", "reread", "reread", "pieces", "loaders", "free", "free", "free"]
+        for i in range(n):
+            cls = CLASSES[int(rng.integers(0, 4))]
+            style = styles[int(rng.integers(0, len(styles)))]
+            files, steps = self.history(rng, cls, style)
+            out.append({"cls": cls, "files": files, "steps": steps, "kind": style})
+        return out
+
+    # ---- implementation ---------------------------------------------------------
+    def run_impl(self, inp):
+        import logging
+        import warnings
+
+        from haptools import data as hd
+
+        warnings.simplefilter("ignore")
+        logging.disable(logging.CRITICAL)
+        d = tempfile.mkdtemp(prefix="hv_c13f_")
+        try:
+            cls_name = inp["cls"]
+            is_anc = cls_name == "GenotypesAncestry"
+            paths = []
+            for k, t in enumerate(inp["files"]):
+                if cls_name == "GenotypesPLINK":
+                    path = os.path.join(d, f"f{k}.pgen")
+                    write_pgen(path, t)
+                else:
+                    path = os.path.join(d, f"f{k}.vcf.gz")
+                    write_vcf_plain(path, t, is_anc)
+                paths.append(path)
+            if is_anc:
+                from haptools.transform import GenotypesAncestry as cls
+            else:
+                cls = getattr(hd, cls_name)
+            from pathlib import Path
+
+            g = None
+            steps = []
+            for st in inp["steps"]:
+                if "read" in st:
+                    try:
+                        if g is None:
+                            g = cls(Path(paths[st["read"]]))
+                        else:
+                            g.fname = Path(paths[st["read"]])   # the same object reads another (or the same) file
+                        kw = {}
+                        if st.get("samples") is not None:
+                            kw["samples"] = {f"s{x}" for x in st["samples"]}
+                        if st.get("variants") is not None:
+                            kw["variants"] = {vname(x) for x in st["variants"]}
+                        g.read(**kw)
+                        o = {"state": observe_state(g, is_anc, decode=True)}
+                        if "shape_mismatch" in o["state"]:
+                            o = {"other": 98, "msg": f"arrays out of step after read: {o['state']['shape_mismatch']}"}
+                    except Exception as e:  # noqa
+                        o = {"other": err_kind(e), "msg": f"read(): {type(e).__name__}: {e}"[:200]}
+                else:
+                    o = run_check_op(g, st, is_anc, decode=True)
+                steps.append(o)
+                if "other" in o:
+                    break
+            return {"steps": steps}
+        finally:
+            shutil.rmtree(d, ignore_errors=True)
+
+    def encode(self, inp, obs):
+        sh = Shared()
+        anc = L.b(inp["cls"] == "GenotypesAncestry")
+        files = L.lst([sh(t) for t in inp["files"]])
+        if not isinstance(obs, dict) or "steps" not in obs:
+            k = obs.get("kind", 99) if isinstance(obs, dict) else 99
+            return sh.wrap(f"mkf {anc} {files} [({step_term(inp['steps'][0])}, OOther {L.z(k)})]")
+        parts = [f"({step_term(st)}, {obs_term(o, sh)})" for st, o in zip(inp["steps"], obs["steps"])]
+        return sh.wrap(f"mkf {anc} {files} {L.lst(parts)}")
+
+    # ---- bookkeeping --------------------------------------------------------------
+    def walk(self, inp, obs):
+        """(step, expected contents before it, observation) for every observed step"""
+        cur = None
+        if not isinstance(obs, dict) or "steps" not in obs:
+            return
+        for st, o in zip(inp["steps"], obs["steps"]):
+            yield st, cur, o
+            if "read" in st:
+                cur = py_read_sel(inp["files"][st["read"]], st.get("samples"), st.get("variants"))
+            elif "state" in o:
+                cur = o["state"]
+
+    def nontrivial(self, inp, obs):
+        for st, cur, o in self.walk(inp, obs):
+            if "read" not in st and ("raise" in o or ("state" in o and o["state"] != cur)):
+                return True
+        return False
+
+    def classes(self, inp, obs):
+        out = [inp["cls"], f"history={inp['kind']}", f"steps={len(inp['steps'])}", f"files={len(inp['files'])}"]
+        for f in inp["files"]:
+            out += id_classes(f)
+        nread = 0
+        for st, cur, o in self.walk(inp, obs):
+            if "read" in st:
+                nread += 1
+                tag = "read" + ("-again" if nread > 1 else "") + ("-some-variants" if st.get("variants") is not None else "") \
+                    + ("-some-samples" if st.get("samples") is not None else "")
+                out.append(f"{tag}:{'other' + str(o['other']) if 'other' in o else 'ok'}")
+                continue
+            tag = st["op"] + ("+discard" if st.get("discard") else "") + ("@reread" if nread > 1 else "")
+            if "raise" in o:
+                out.append(f"{tag}:raised")
+            elif "other" in o:
+                out.append(f"{tag}:other{o['other']}")
+            else:
+                out.append(f"{tag}:{'changed' if o['state'] != cur else 'unchanged'}")
+                if cur is not None:
+                    out += discard_hits_twin(cur, o["state"])
+        return sorted(set(out))
+
+    def shrink(self, inp):
+        steps, files = inp["steps"], inp["files"]
+        for j in range(len(steps) - 1, 0, -1):
+            yield dict(inp, steps=steps[:j] + steps[j + 1:])
+        for j, st in enumerate(steps):
+            if "read" in st and (st.get("samples") is not None or st.get("variants") is not None):
+                yield dict(inp, steps=steps[:j] + [{"read": st["read"], "samples": None, "variants": None}] + steps[j + 1:])
+            if st.get("discard"):
+                yield dict(inp, steps=steps[:j] + [dict(st, discard=False)] + steps[j + 1:])
+        if len(files) > 1:
+            used = sorted({st["read"] for st in steps if "read" in st})
+            if len(used) < len(files):
+                ren = {k: i for i, k in enumerate(used)}
+                yield dict(inp, files=[files[k] for k in used],
+                           steps=[dict(st, read=ren[st["read"]]) if "read" in st else st for st in steps])
+        for k, t in enumerate(files):
+            n, p = len(t["samples"]), len(t["variants"])
+            anc = t.get("anc")
+            put = lambda t2: dict(inp, files=files[:k] + [t2] + files[k + 1:])
+            if n > 1:
+                for i in range(n):
+                    yield put(dict(t, samples=t["samples"][:i] + t["samples"][i + 1:], rows=t["rows"][:i] + t["rows"][i + 1:],
+                                   anc=None if anc is None else anc[:i] + anc[i + 1:]))
+            if p > 1:
+                for j in range(p):
+                    yield put(dict(t, variants=t["variants"][:j] + t["variants"][j + 1:], rows=[r[:j] + r[j + 1:] for r in t["rows"]],
+                                   anc=None if anc is None else [r[:j] + r[j + 1:] for r in anc]))
+            for i in range(n):
+                for j in range(p):
+                    if t["rows"][i][j] != [0, 0, 1]:
+                        rows = [[list(c) for c in r] for r in t["rows"]]
+                        rows[i][j] = [0, 0, 1]
+                        yield put(dict(t, rows=rows))
+
+    def mutate(self, inp, rng):
+        cls = inp["cls"]
+        # the boundary history first: read, check_phase, read (unphased heterozygote), check_phase
+        for _ in range(6):
+            files, steps = self.boundary(rng, cls)
+            yield dict(inp, files=files, steps=steps, kind="boundary")
+        # the same history again on the same object: every read and check repeated after the last step
+        if len(inp["steps"]) <= 4:
+            yield dict(inp, steps=inp["steps"] + inp["steps"])
+        # a check_phase / a discarding check squeezed in before every re-read
+        for extra in ({"op": "phase"}, {"op": "missing", "discard": True}, {"op": "biallelic", "discard": True},
+                      {"op": "maf", "thr": 0.25, "discard": True, "warn": False}):
+            steps = []
+            for st in inp["steps"]:
+                if "read" in st and steps:
+                    steps.append(dict(extra))
+                steps.append(st)
+            if len(steps) > len(inp["steps"]):
+                yield dict(inp, steps=(steps + [dict(extra)])[:10])
+        # offending cells in the files
+        for _ in range(10):
+            k = int(rng.integers(0, len(inp["files"])))
+            t = inp["files"][k]
+            rows = [[list(c) for c in r] for r in t["rows"]]
+            i, j = int(rng.integers(0, len(rows))), int(rng.integers(0, len(rows[0])))
+            rows[i][j] = [[1, 2, 0], [255, 255, 0], [2, 2, 1], [0, 1, 0], [0, 1, 1]][int(rng.integers(0, 5))]
+            t2 = norm_file_table(cls, dict(t, rows=rows, samples=list(t["samples"])))
+            yield dict(inp, files=inp["files"][:k] + [t2] + inp["files"][k + 1:])
+
+    def signature(self, inp, obs):
+        kind = "ancestry" if inp["cls"] == "GenotypesAncestry" else "plain"
+        nread = 0
+        for st, cur, o in self.walk(inp, obs):
+            if "read" in st:
+                nread += 1
+                if "other" in o:
+                    return f"files {kind}: read() raises exception kind {o['other']}"
+                continue
+            where = " after a re-read on the same object" if nread > 1 else ""
+            k = st["op"]
+            if "other" in o:
+                if o["other"] == 98:
+                    return f"files {kind}: check_{k} leaves the parallel arrays out of step{where}"
+                return f"files {kind}: check_{k} raises an unexpected exception kind {o['other']}{where}"
+            if cur is None:
+                continue
+            is_anc = inp["cls"] == "GenotypesAncestry"
+            if k in ("missing", "biallelic", "phase"):
+                off = offenders(cur, k, is_anc)
+                if off and not st.get("discard") and "raise" not in o:
+                    return f"files {kind}: check_{k} returns although an offending call is loaded{where}"
+                if "raise" in o and not offenders(cur, k, is_anc, may=True):
+                    return f"files {kind}: check_{k} raises without an offending call in the loaded data{where}"
+        return f"files {kind}: outcome or surviving data differ from the property's clause for the loaded data"
+
+
+RELATIONS = [QC(), Load(), Files()]
 
 LEVEL_TEXT = (
     "Coq theorems for all genotype tables (no size bound) about a Gallina model of check_missing / check_biallelic / "
@@ -748,8 +1367,14 @@ LEVEL_TEXT = (
     "filtering by the offender predicate): each check raises iff an offending call exists and names one, discard mode "
     "removes exactly the offending samples / variants and keeps the rest (values, order, IDs, ancestry in step), "
     "check_phase strips the phase plane otherwise, the loader's result passes all three checks; boolean checkers of "
-    "these clauses proved sound. The model is tied to /repo on every run by evaluating, inside Coq, model-vs-"
-    "implementation agreement and the clause checkers on generated arrays for all four classes and on VCF loads."
+    "these clauses proved sound; check_sorted raises iff a later variant of the same chromosome has a smaller position; "
+    "check_maf instantiated with the exact rational MAF min(f,1-f), f = count/(2n); and, for every history of read() and "
+    "checks on one object (any length, any order, re-reads included), every call's outcome satisfies its clause for the "
+    "contents the object has at that moment, the object stays well-formed (ancestry in step), and a read() makes the "
+    "earlier history irrelevant. The model is tied to /repo on every run by evaluating, inside Coq, model-vs-"
+    "implementation agreement and the clause checkers on generated arrays for all classes (IDs unique, repeated or "
+    "missing; offenders and survivors identified by position), on VCF loads, and on histories of one object reading "
+    "real VCF.gz / PGEN files, checking, re-reading and checking again."
 )
 LEVEL_NOTE = (
     "Trusted: Coq kernel/vm_compute; the hand-written model (validated differentially on every run); numpy "
@@ -758,6 +1383,11 @@ LEVEL_NOTE = (
     "observed values). Missing = cell >= 254 (255 only in GenotypesAncestry, as in the code); where the property is "
     "silent (254 in an ancestry object, missing values met by the biallelic check) the checker accepts "
     "either behaviour; check_phase must raise iff a call with both alleles present (< 254), different and unphased "
-    "exists (a half-missing or haploid call is not a heterozygote). Data dtype (bool after check_biallelic) is not observed, values are."
+    "exists (a half-missing or haploid call is not a heterozygote). Data dtype (bool after check_biallelic) is not observed, values are. "
+    "files relation: 'the data currently loaded' after read() is the content of the file as the harness wrote it (calls, "
+    "phase flags, ancestry labels); a check whose verdict or result is not the clause for that content - e.g. because a "
+    "flag set by an earlier call on the same object made read() skip the phase flags - fails holds. The theorems that the "
+    "executable models of qc / files are instances of the proved histories mention primitive floats and live in "
+    "C13_ProofsHist.v (model_run_hrun, model_frun_hrun), not in C13_Property.v."
 )
 TECHNIQUE = "Coq proof (list induction over nonzero/delete) + vm_compute-evaluated correspondence against the implementation"
